@@ -130,13 +130,17 @@ struct Sctx
   uint64_t shape; // structural code chosen by the driver
   uint64_t spos;  // position in the structural stream (reset before every value)
   int st, tcls;   // element stratum / translation class proposals
-  explicit Sctx(uint64_t seed, uint64_t sh) : r(seed), shape(sh), spos(0), st(7), tcls(1) {}
+  // shape >= 1000: the first container of run-time-dof elements that is sampled gets >= 3 elements and an element with
+  // ZERO degrees of freedom at position zforce (0 first, 1 middle, 2 last); shape % 1000 drives the top-level choice
+  int zforce;
+  bool make_zero = false;   // the element being sampled must have zero dof
+  explicit Sctx(uint64_t seed, uint64_t sh) : r(seed), shape(sh), spos(0), st(7), tcls(1), zforce(sh >= 1000 ? static_cast<int>(sh / 1000 - 1) % 3 : -1) {}
   // deterministic structural choice number k of this shape, in [0, n)
   int schoice(int n)
   {
     if (spos == 0) {  // the first (top-level) choice is the driver's: shape mod n
       ++spos;
-      return static_cast<int>(shape % static_cast<uint64_t>(n));
+      return static_cast<int>((shape % 1000) % static_cast<uint64_t>(n));
     }
     uint64_t x = shape * 0x9E3779B97F4A7C15ull + (++spos) * 0xBF58476D1CE4E5B9ull;
     x ^= x >> 31;
@@ -235,9 +239,14 @@ struct Mod<VX>
       out.push_back(x);
     }
   }
+  static constexpr bool can_zero = true;
   static VX sample(Sctx & s)
   {
-    const int n = s.schoice(5);
+    int n = s.schoice(5);
+    if (s.make_zero) {
+      n           = 0;
+      s.make_zero = false;
+    }
     std::vector<double> c;
     fill(s, s.tcls == 0 ? 1 : s.tcls, n, c);
     VX out(n);
@@ -266,11 +275,28 @@ struct Mod<std::vector<M>>
     }
     o += "]}";
   }
+  static constexpr bool can_zero = true;
   static T sample(Sctx & s)
   {
-    const int n = s.schoice(5);  // sizes 0..4
+    int n = s.schoice(5);  // sizes 0..4
+    if (s.make_zero) {     // this vector is the element that must have zero dof: empty
+      s.make_zero = false;
+      return T{};
+    }
+    int zidx = -1;
+    if constexpr (requires { Mod<M>::can_zero; }) {
+      if (s.zforce >= 0) {
+        if (n < 3) n = 3;
+        zidx     = s.zforce == 0 ? 0 : s.zforce == 2 ? n - 1 : n / 2;
+        s.zforce = -1;
+      }
+    }
     T out;
-    for (int i = 0; i < n; ++i) out.push_back(Mod<M>::sample(s));
+    for (int i = 0; i < n; ++i) {
+      s.make_zero = (i == zidx);
+      out.push_back(Mod<M>::sample(s));
+      s.make_zero = false;
+    }
     return out;
   }
   static void propose(Sctx & s, const T & m, int st, int tcls, int dircls, std::vector<double> & out)
